@@ -1,8 +1,51 @@
 (* C02 -- the pair tree equals pest's, minus the documented pruning under atomic rules. Statements only. *)
 From Coq Require Import List NArith.
 From PT Require Import Model.Base Model.Stack Model.Texpr Model.Sem Model.Tok Model.Tokens Model.Ast Model.Translate Model.PegSpec Model.GenEnv.
-From PT Require Import Proofs.GenWitness Proofs.SkipPositions.
+From PT Require Import Proofs.GenWitness Proofs.SkipPositions Proofs.PegSimBase Proofs.BoundaryOps Proofs.Boundary Proofs.PegMain2.
+From PT Require Import Proofs.PegSimTokBase Proofs.PegSimTok Proofs.TokMain.
 Import ListNotations.
+
+(* Main theorem.  [prune g] removes every descendant of a token whose rule is declared atomic (@) or compound-atomic ($).
+   For every grammar whose WHITESPACE / COMMENT cannot tell the inherited atomicity ([ws_ok]) and reach, outside
+   lookahead, only rules that yield the same tokens in pest's forced-atomic skip context ([tok_ok]: undefined, `!`, `$`
+   or quiet silent rules -- the complement of known finding F8), every callable rule, valid UTF-8 input and literals:
+   whenever the PEG spec of pest accepts with token tree [toks] and the REAL prefix parse returns a tree t, it stops at the
+   same offset with the same stack, and the Pair tree it exposes is exactly pest's tree after that pruning
+   (rule, start, end, children in order; lookahead contributes nothing, silent rules are transparent, EOI and
+   non-silent WHITESPACE / COMMENT tokens sit where pest puts them). *)
+Theorem C02_tokens : forall g eoi I pred,
+  ws_ok g = true -> eoi_fresh eoi g = true -> tok_ok eoi g = true -> good_inp I -> glits_ok g ->
+  forall r, callable eoi g r = true -> forall n pos stk toks,
+  peg_entry (penv_of eoi g I pred) n r = POk pos stk toks ->
+  forall m pos' t st',
+  try_parse_partial (env_of eoi g I pred) m r = Ok (pos', t) st' ->
+  pos' = pos /\ cache (Sem.stk st') = stk /\ tokens (env_of eoi g I pred) t = map (prune g) toks.
+Proof. exact typed_pair_tree_is_pest. Qed.
+Print Assumptions C02_tokens.
+
+(* non-vacuity: main = { "a" ~ comp ~ &inner ~ inner ~ EOI }  comp = ${ inner ~ inner }  inner = { "x" }  with a
+   NON-silent WHITESPACE = { " " } on "a xx  x ": pest's tree, the typed tree, and typed = prune pest *)
+Theorem C02_example :
+  ws_ok tx_g = true /\ eoi_fresh 0 tx_g = true /\ tok_ok 0 tx_g = true /\ callable 0 tx_g 1 = true /\
+  tok_pair tx_g tx_in 1 40 =
+    Some ([Tok 1 0 8 [Tok 4 1 2 []; Tok 2 2 4 [Tok 3 2 3 []; Tok 3 3 4 []]; Tok 4 4 5 []; Tok 4 5 6 [];
+                      Tok 3 6 7 []; Tok 4 7 8 []; Tok 0 8 8 []]],
+          [Tok 1 0 8 [Tok 4 1 2 []; Tok 2 2 4 []; Tok 4 4 5 []; Tok 4 5 6 [];
+                      Tok 3 6 7 []; Tok 4 7 8 []; Tok 0 8 8 []]]) /\
+  match tok_pair tx_g tx_in 1 40 with
+  | Some (pest, typed) => typed = map (prune tx_g) pest
+  | None => False
+  end.
+Proof. exact tok_example. Qed.
+Print Assumptions C02_example.
+
+(* [tok_ok] is needed: WHITESPACE = { inner } passes every other premise and the conclusion fails (known finding F8) *)
+Theorem C02_tok_ok_needed :
+  ws_ok wg2 = true /\ eoi_fresh 0 wg2 = true /\ callable 0 wg2 3 = true /\ tok_ok 0 wg2 = false /\
+  tok_pair wg2 w_input2 3 30 = Some ([Tok 3 0 3 [Tok 1 1 2 []]], [Tok 3 0 3 [Tok 1 1 2 [Tok 2 1 2 []]]]) /\
+  map (prune wg2) [Tok 3 0 3 [Tok 1 1 2 []]] <> [Tok 3 0 3 [Tok 1 1 2 [Tok 2 1 2 []]]].
+Proof. exact tok_ok_needed. Qed.
+Print Assumptions C02_tok_ok_needed.
 
 Theorem C02_lookahead_no_tokens : forall E t, tokens E (NPos t) = [] /\ tokens E NNeg = [].
 Proof. exact lookahead_no_tokens. Qed.
